@@ -165,6 +165,9 @@ MUTANTS = [
     ("directive-match-continues", "C08", "src/context.rs",
      '                if line == "stylua: ignore" {\n                    return FormatNode::Skip;', '                if line == "stylua: ignore" {\n                    break;',
      "directive-effect"),
+    ("verify-number-unreachable-again", "C07", "src/verify_ast.rs",
+     "                        #[cfg(not(feature = \"luau\"))]\n                        // Cannot normalise (e.g. hex float, integer wider than 64 bits): compare the text as written\n                        Err(_) => text.to_string(),",
+     "                        #[cfg(not(feature = \"luau\"))]\n                        Err(_) => unreachable!(),", "panic-on-unconvertible-text"),
     ("regex-drop-z", "C04", "src/formatters/general.rs",
      'r#"^[^\\n\\r"\'0-9\\\\abfnrtuvxz]$"#', 'r#"^[^\\n\\r"\'0-9\\\\abfnrtuvx]$"#', "escape-dropped=z"),
     ("group-line-distance", "C12", "src/sort_requires.rs",
